@@ -149,6 +149,12 @@ func (c *diskCache) findMissingCasBlobsInternal(ctx context.Context, blobs []*pb
 			}
 			return errRequestCancelled
 		case <-waitCh: // Everything in the waitgroup has finished.
+			// If a proxy miss cancelled the context just before the last
+			// check finished, both cases were ready and select picked this
+			// one at random: the miss must still be reported.
+			if cancelledDueToFailFast {
+				return errMissingBlob
+			}
 		}
 	}
 
